@@ -900,6 +900,7 @@ def run_fmt_int_tie(ck):
     texts = [b"a", b" LIMIT ", b"'", b"\\", b"(", b")", b"x'y", b"toDateTime(", b", ", b"--", b"-", b"\n", b"=", b"", b"1", b" - "]
     verbs = [b"%d", b"%s", b"%v", b"%d", b"%%", b"%d%d", b"%'", b"%\\", b"%!", b"%z", b"%t", b"%e", b"%f", b"%g", b"%S", b"%D", b"%)", b"%_",
              b"%[1]d", b"%[2]s", b"%[1]s", b"%[2]d", b"%[3]v", b"%[0]s", b"%[9]d", b"%[12]d", b"%[1]d%d", b"%[2]s%[1]s",
+             b"%09d", b"%03d", b"%0d", b"%012d", b"%001d", b"%020d", b"%05s", b"%05v", b"%0[1]d", b"%0-5d",
              b"%[]d", b"%[1d", b"%[1]%", b"%[1]5d", b"%5[1]d", b"%[x]d", b"%[1][2]d", b"%[-1]d",
              b"%b", b"%o", b"%O", b"%c", b"%U", b"%q", b"%x", b"%X", b"%5d", b"%-d", b"%+d", b"%05d", b"%[1]d", b"%.3d", b"% d", b"%T"]
     ints = ["i:0", "i:1", "i:-1", "i:100", "i:7001", "i:-7002", "i:1700000000", "l:0", "l:-1", "l:1700000000000000000", "l:9223372036854775807",
@@ -917,11 +918,12 @@ def run_fmt_int_tie(ck):
              (b"toDateTime(%d) AND val == %s LIMIT %d", ["l:-1700000000", "s:" + b"'x'".hex(), "i:100"]),
              (b"if(JSONType(%[2]s, %[1]s) == 'String', JSONExtractString(%[2]s, %[1]s))", ["s:" + b"'a\\'%s'".hex(), "s:" + b"string".hex()]),
              (b"intDiv(timestamp_ns, %d) * %[1]d", ["l:15000000000"]), (b"%[3]d|%[0]s|%[1]d %s", ["i:1", "s:" + b"b".hex()]), (b"%[1]d", ["i:1", "i:2"]),
-             (b"%[2]d", ["i:1"]), (b"%d %[1]", ["i:1"]), (b"%[1]", ["i:1"])]
+             (b"%[2]d", ["i:1"]), (b"%d %[1]", ["i:1"]), (b"%[1]", ["i:1"]), (b"%d.%09d", ["l:1700000000", "l:5"]), (b"%09d", ["l:-5"]), (b"%03d", ["i:12345"]),
+             (b"%09d|%03d|%0d", ["l:-9223372036854775808", "i:-12", "i:0"]), (b"%05d", ["s:" + b"a".hex()]), (b"%05d", [])]
     cases = list(fixed)
-    for _ in range(int(ck.n(260, 3000))):
+    for _ in range(int(ck.n(380, 3000))):
         k = rnd.randint(1, 4)
-        f = b"".join(rnd.choice(texts) + (rnd.choice(verbs[:28]) if rnd.random() < 0.9 else rnd.choice(verbs)) for _ in range(k)) + rnd.choice(texts)
+        f = b"".join(rnd.choice(texts) + (rnd.choice(verbs[:34]) if rnd.random() < 0.92 else rnd.choice(verbs)) for _ in range(k)) + rnd.choice(texts)
         cases.append((f, [operand() for _ in range(rnd.randint(0, 4))]))
     inp = os.path.join(ck.work, "fmt2_in.jsonl")
     with open(inp, "w") as fh:
@@ -942,17 +944,18 @@ def run_fmt_int_tie(ck):
     with_int = sum(1 for r, v in zip(rows, verd) if v == 0 and any(not o.startswith("s:") for o in r["ops"]) and b"%d" in bytes.fromhex(r["format"]))
     with_idx = sum(1 for r, v in zip(rows, verd) if v == 0 and b"%[" in bytes.fromhex(r["format"]))
     badidx = sum(1 for r, v in zip(rows, verd) if v == 0 and b"(BADINDEX)" in bytes.fromhex(r["out"]))
+    padded = sum(1 for r, v in zip(rows, verd) if v == 0 and b"%0" in bytes.fromhex(r["format"]))
     badverb = sum(1 for r, v in zip(rows, verd) if v == 0 and b"%!d(string=" in bytes.fromhex(r["out"]))
     ck.obligation("model/GoFmtInt.v = package fmt: fmt_go2 format operands is what the real fmt.Sprintf printed, on %d generated formats inside the modelled fragment "
-                  "(%d with an integer under %%d, %d with a string under %%d, %d with an argument index, %d with a bad index; %d outside: flags, width, precision, %%b %%o %%c %%U %%q %%x %%T)"
-                  % (inside, with_int, badverb, with_idx, badidx, sum(1 for v in verd if v == 2)), not bad and inside >= 100 and with_int >= 40 and badverb >= 5 and with_idx >= 40 and badidx >= 8,
+                  "(%d with an integer under %%d, %d with a string under %%d, %d with an argument index, %d with a bad index, %d with a zero-padded integer; %d outside: other flags, width, precision, %%b %%o %%c %%U %%q %%x %%T)"
+                  % (inside, with_int, badverb, with_idx, badidx, padded, sum(1 for v in verd if v == 2)), not bad and inside >= 100 and with_int >= 40 and badverb >= 5 and with_idx >= 40 and badidx >= 8 and padded >= 10,
                   "; ".join("%r %r -> %r" % (bytes.fromhex(r["format"]), r["ops"], bytes.fromhex(r["out"])) for r in bad[:3]))
     if bad:
         r = bad[0]
         ck.violation({"property": "C10", "kind": "model/GoFmtInt.v disagrees with package fmt", "format": bytes.fromhex(r["format"]).decode("utf8", "backslashreplace"),
                       "ops": r["ops"], "fmt_printed": bytes.fromhex(r["out"]).decode("utf8", "backslashreplace"),
                       "broken": "correspondence model/GoFmtInt.v vs package fmt"}, no_input=True)
-    ck.extra["gofmtint_tie"] = {"formats": len(rows), "inside_the_modelled_fragment": inside, "integer_under_%d": with_int, "string_under_%d": badverb, "argument_index": with_idx, "bad_index": badidx,
+    ck.extra["gofmtint_tie"] = {"formats": len(rows), "inside_the_modelled_fragment": inside, "integer_under_%d": with_int, "string_under_%d": badverb, "argument_index": with_idx, "bad_index": badidx, "zero_padded": padded,
                                 "outside": sum(1 for v in verd if v == 2)}
     with vcheck_lock():
         ck.coverage["evaluations"] += inside
@@ -980,7 +983,7 @@ def run_fmt_sites_tie(ck, meta):
     outside = [(r["file"], r["line"], bytes.fromhex(r["format"]).decode("utf8", "replace")) for r, v in zip(recs, verd) if v == 2]
     ck.obligation("model/GoFmtInt.v prints every constant Sprintf format of the repository's SQL sites as package fmt does and as the census reads it "
                   "(%d formats, %d with an integer under %%d, %d with argument indexes; %d outside the modelled fragment: flags / width)" % (inside, numeric, indexed, len(outside)),
-                  not bad and inside >= 80 and numeric >= 8 and indexed >= 4 and len(outside) <= 3,
+                  not bad and inside >= 80 and numeric >= 8 and indexed >= 4 and len(outside) <= 2,
                   "; ".join("%s:%s %r" % (r["file"], r["line"], bytes.fromhex(r["format"])) for r in bad[:3]))
     if bad:
         r = bad[0]
